@@ -565,6 +565,24 @@ func genRdCases(c *Ctx) []json.RawMessage {
 		}
 		add(cs)
 	}
+	// one oversized frame (65 and 130 MiB: a buffer beyond any "too big to keep" threshold), released with the next frames
+	// already buffered behind it; then ordinary traffic on the same reader
+	for _, big := range []int{65 << 20, 130<<20 + 5} {
+		for _, tail := range []int{0, 100, 9000, 70000} {
+			cs := RdCase{Fl: "io", S: big + tail, Fk: "EOF", Seed: seed, Chunks: []int{-1}}
+			seed++
+			cs.Ops = []RdOp{{"next", big}, {"release", 0}}
+			for left := tail; left > 0; left -= 3000 {
+				n := 3000
+				if left < n {
+					n = left
+				}
+				cs.Ops = append(cs.Ops, RdOp{"next", n})
+			}
+			cs.Ops = append(cs.Ops, RdOp{"release", 0}, RdOp{"peek", 1})
+			add(cs)
+		}
+	}
 	// counts near the top of the int range (a peer-controlled 64-bit length handed straight to the reader), once the
 	// source's error is latched (before that the reader would try to obtain that much memory): the request fails with
 	// the source's error, nothing is consumed, whatever the read index is
